@@ -1,0 +1,29 @@
+//go:build verif
+
+package statesync
+
+import (
+	"net/http"
+
+	rpchttp "github.com/tendermint/tendermint/rpc/client/http"
+)
+
+// VerifHTTPClient, when set by a simulation harness, supplies the http.Client (with an
+// in-process RoundTripper) used for the RPC connections of the light-client state
+// provider. Only compiled with the build tag "verif".
+var VerifHTTPClient func(server string) *http.Client
+
+func verifRPCClient(server string) *rpchttp.HTTP {
+	if VerifHTTPClient == nil {
+		return nil
+	}
+	hc := VerifHTTPClient(server)
+	if hc == nil {
+		return nil
+	}
+	c, err := rpchttp.NewWithClient(server, "/websocket", hc)
+	if err != nil {
+		return nil
+	}
+	return c
+}
